@@ -89,14 +89,6 @@ func varnames(tup *types.Tuple) []string {
 func stripVarName(v *types.Var) *types.Var {
 	return types.NewVar(v.Pos(), v.Pkg(), "", v.Type())
 }
-func outs(num int, last string) string {
-	outs := make([]string, num)
-	for i := 0; i < num-1; i++ {
-		outs[i] = fmt.Sprintf("out%d", i)
-	}
-	outs[num-1] = last
-	return strings.Join(outs, ", ")
-}
 
 type basicErrorType struct {
 	types.Type
@@ -129,13 +121,34 @@ func (g *gen) genFuncFor(deriveFuncName string, ftyp *types.Signature) error {
 	p.P("return %s {", g.TypeString(newSigType))
 	p.In()
 	as := varnames(newSigType.Params())
-	p.P("%s := f(%s)", outs(rlen, "success"), strings.Join(as, ", "))
-	p.P("if success {")
+	// the results of f are stored in variables next to f's parameters: their names must not be taken.
+	taken := make(map[string]bool, len(as))
+	for _, a := range as {
+		taken[a] = true
+	}
+	fresh := func(name string) string {
+		for taken[name] {
+			name += "_"
+		}
+		taken[name] = true
+		return name
+	}
+	outNames := make([]string, rlen)
+	for i := 0; i < rlen-1; i++ {
+		outNames[i] = fresh(fmt.Sprintf("out%d", i))
+	}
+	success := fresh("success")
+	withLast := func(last string) string {
+		outNames[rlen-1] = last
+		return strings.Join(outNames, ", ")
+	}
+	p.P("%s := f(%s)", withLast(success), strings.Join(as, ", "))
+	p.P("if %s {", success)
 	p.In()
-	p.P("return %s", outs(rlen, "nil"))
+	p.P("return %s", withLast("nil"))
 	p.Out()
 	p.P("}")
-	p.P("return %s", outs(rlen, "err"))
+	p.P("return %s", withLast("err"))
 	p.Out()
 	p.P("}")
 	p.Out()
